@@ -5,15 +5,16 @@ import corpora
 
 KERNEL = "Lean 4.33.0 kernel (lake build; leanchecker re-check in the thorough tier); axioms per theorem audited ⊆ {propext, Quot.sound, Classical.choice}"
 TRANSLATOR = "tools/extract.py + tools/rsparse.py (translator: Rust fragments -> lean/GA/Gen/*.lean, regenerated every run)"
+BODYTIE = "tools/bodyx.py + tools/rsbody.py (whole-body translator: every statement of the functions of src/iter.rs and of the drop guards / is_full / finish of src/internal.rs -> body IR in lean/GA/Gen/Body.lean, regenerated every run) and the body-IR interpreter lean/GA/Model/Body.lean (its semantics of ptr::read, get_unchecked, drop_in_place, mem::forget, slice fold/rfold/zip loops, scope-end and unwinding drops is the model of Rust that the body-level theorems rest on)"
 HARNESS = "harness/ (Rust correspondence harness calling the real crate in-process) + tools/scen.py + canonicalisation in tools/orchestrate.py"
 
 PROPS = {}
 PARAMS = {}
 
 PROPS["C06"] = Prop(
-    "C06", ["GA.Props.C06"],
-    [Engine("iterq", scen.iterq, sig=lambda l: "n=" + l.split()[0].split("=")[1] if int(l.split()[0].split("=")[1]) > 8 else "small")],
-    trusted=[KERNEL, TRANSLATOR, HARNESS,
+    "C06", ["GA.Props.C06", "GA.Props.Body"],
+    [Engine("iterq", scen.iterq, body_view=True, sig=lambda l: "n=" + l.split()[0].split("=")[1] if int(l.split()[0].split("=")[1]) > 8 else "small")],
+    trusted=[KERNEL, TRANSLATOR, BODYTIE, HARNESS,
              "modelled, not verified: ptr::read / get_unchecked / slice iteration semantics of core; VecDeque is the independent oracle"],
     assumptions=["elements are plain u64 values (Clone copies the value)",
                  "correspondence covers the length lattice only; the theorems cover every N"],
@@ -42,9 +43,9 @@ def own_sig(l):
 
 
 PROPS["C04"] = Prop(
-    "C04", ["GA.Props.C04"],
-    [Engine("own", scen.own_c04, sig=own_sig)],
-    trusted=[KERNEL, TRANSLATOR, HARNESS, OWN_TRUST],
+    "C04", ["GA.Props.C04", "GA.Props.Body"],
+    [Engine("own", scen.own_c04, sig=own_sig, body_view=True)],
+    trusted=[KERNEL, TRANSLATOR, BODYTIE, HARNESS, OWN_TRUST],
     assumptions=["element ids are distinct; caller code is a function of the call index (one injected panic per run)",
                  "a second panic during unwinding aborts the process and is outside the property",
                  "correspondence covers N in {0..8, 16, 17, 33}; the theorems cover every N and every panic index"],
@@ -53,9 +54,9 @@ PROPS["C04"] = Prop(
 PARAMS["C04"] = {"rule": "every operation (generate, default, map x4 forms, zip x10 forms, fold x4 forms, clone, iterator clone/fold/rfold from every (front, back), collect stack/boxed x try/panicking) x N in {0..8,16,17,33} x an injected panic at every call index (N <= 8; first/middle/last above) and the panic-free run. Distinct = distinct scenario lines; non-trivial = a panic was injected and propagated."}
 
 PROPS["C05"] = Prop(
-    "C05", ["GA.Props.C05"],
-    [Engine("own", scen.own_c05, sig=own_sig)],
-    trusted=[KERNEL, TRANSLATOR, HARNESS, OWN_TRUST],
+    "C05", ["GA.Props.C05", "GA.Props.Body"],
+    [Engine("own", scen.own_c05, sig=own_sig, body_view=True)],
+    trusted=[KERNEL, TRANSLATOR, BODYTIE, HARNESS, OWN_TRUST],
     assumptions=["exactly one element's destructor panics per run (a second panic while unwinding aborts the process)",
                  "element ids are distinct", "elements abandoned by unwinding may leak (allowed by the property); the oracle only rejects a second drop"],
     nontrivial=lambda s, impl: "fault=dtor" in s and "panicked" in impl,
@@ -125,11 +126,11 @@ PROPS["C11"] = Prop(
 PARAMS["C11"] = {"rule": "flatten / unflatten, owned, & and &mut, for every (N, M) in 0..=6 squared (N >= 1 for unflatten) plus (1,1024), (1024,1), (16,64); 5 element kinds incl. zero-sized and drop-tracked; element order, address and extent of the regrouped value/view."}
 
 PROPS["C03"] = Prop(
-    "C03", ["GA.Props.C03"],
+    "C03", ["GA.Props.C03", "GA.Props.Body"],
     [Engine("hist", scen.hist, sig=lambda l: "len%d" % min(40, 5 * (l.count(";") // 5)), miri=12),
      Engine("seq", scen.seq, sig=lambda l: l.split()[0] + "/" + l.split()[-1]),
      Engine("regroup", lambda t, s, p: [x for x in scen.regroup(t, s, p) if "kind=tr" in x], sig=lambda l: l.split()[0])],
-    trusted=[KERNEL, TRANSLATOR, HARNESS, OWN_TRUST, MEM_TRUST],
+    trusted=[KERNEL, TRANSLATOR, BODYTIE, HARNESS, OWN_TRUST, MEM_TRUST],
     assumptions=["histories are panic-free (C04/C05 cover panics); element ids are assigned in creation order",
                  "flatten/unflatten are modelled at pool level as regrouping of rows (C11 gives the element order); conversions to/from native arrays, tuples, Vec and Box keep the elements (C15/C16 cover the heap side)",
                  "the correspondence pool holds arrays of length 0..=8; the theorem covers every length and every finite history"],
